@@ -3,10 +3,14 @@ package main
 // Ungated stress of the real fsloop on memfs trees (support for the proof, not part of it):
 // tree shapes empty / single / deep 200 / wide 3000 files (> channel capacity 1000) / wide 1500
 // directories / mixed / random, consumer and producer limits 1..16, varying GOMAXPROCS, random
-// filters, and in a quarter of the runs an injected failure (callback error or listing error).
+// filters, in a quarter of the runs an injected failure (callback error or listing error), and in a
+// quarter of the runs (independently) a scope Kill or Error event at a random moment: after a random
+// short delay, or when the k-th callback starts.
 // Every run is judged by `verdict`: nothing repeated or unselected, no callback running when Wait
-// returns, at most `consumers` callbacks at once, every failure in Errors(), and with an empty
-// error list done = selected (computed by selectedOf from the tree and the filters, not by fsloop).
+// returns, at most `consumers` callbacks at once, every failure a callback returned in Errors(), a
+// kill that was delivered before Wait returned shows in Errors(), Wait returns (60 s watchdog), no
+// callback starts after Wait returned, and with an empty error list done = selected (computed by
+// selectedOf from the tree and the filters, not by fsloop).
 
 import (
 	"bufio"
@@ -21,6 +25,8 @@ import (
 
 	"gcverif/internal/hx"
 
+	"github.com/goatcms/goatcore/app"
+	"github.com/goatcms/goatcore/app/scope/eventscope"
 	"github.com/goatcms/goatcore/filesystem"
 	"github.com/goatcms/goatcore/filesystem/filespace/memfs"
 	"github.com/goatcms/goatcore/filesystem/fsloop"
@@ -163,7 +169,7 @@ type stressRes struct {
 	lateCall bool
 }
 
-func stressOne(sh *shape, consumers, producers int, salt uint64, inject int, useFF, useDF, onDir, onFile bool) stressRes {
+func stressOne(sh *shape, consumers, producers int, salt uint64, inject, kill int, useFF, useDF, onDir, onFile bool) stressRes {
 	cfg := walkCfg{onFile: onFile, onDir: onDir}
 	if useFF {
 		cfg.ff = func(p string) bool { return mix(p, salt)%4 != 0 }
@@ -214,9 +220,48 @@ func stressOne(sh *shape, consumers, producers int, salt uint64, inject int, use
 	if cfg.df != nil {
 		data.DirFilter = func(_ filesystem.Filespace, p string) bool { return cfg.df(p) }
 	}
+	// the environment: a scope Kill (kill = 1, 3) or Error (2, 4) event, after a short random delay (1, 2) or
+	// when the k-th callback starts (3, 4)
+	var scope app.EventScope
+	var killDone int32
+	killAt := int32(-1)
+	killCh := make(chan struct{}, 1)
+	startKill := func() {}
+	if kill != 0 {
+		scope = eventscope.New()
+		ev := interface{}(app.KillEvent)
+		var evData interface{}
+		if kill == 2 || kill == 4 {
+			ev, evData = app.ErrorEvent, &cbErr{"scope-error-event"}
+		}
+		if kill >= 3 {
+			killAt = int32(mix("k", salt+5) % uint64(len(sel)+1))
+		}
+		delay := time.Duration(mix("d", salt+6)%400) * time.Microsecond
+		startKill = func() {
+			go func() {
+				if kill >= 3 {
+					select {
+					case <-killCh:
+					case <-time.After(5 * time.Second): // fewer callbacks than k (filters, earlier failure): kill late
+					}
+				} else {
+					time.Sleep(delay)
+				}
+				scope.Trigger(ev, evData)
+				atomic.StoreInt32(&killDone, 1)
+			}()
+		}
+	}
 	cb := func(kind string) filesystem.LoopOn {
 		return func(_ filesystem.Filespace, p string) error {
 			rec.enter()
+			if killAt >= 0 && atomic.LoadInt32(&rec.started) == killAt+1 {
+				select {
+				case killCh <- struct{}{}:
+				default:
+				}
+			}
 			switch mix(p, salt+4) % 64 {
 			case 0:
 				time.Sleep(30 * time.Microsecond)
@@ -232,14 +277,16 @@ func stressOne(sh *shape, consumers, producers int, salt uint64, inject int, use
 	if onDir {
 		data.OnDir = cb("d")
 	}
-	loop := fsloop.NewLoop(data, nil)
+	loop := fsloop.NewLoop(data, scope)
 	loop.Run("")
+	startKill() // the scope's slots are connected in Run: events sent earlier would not reach the loop
 	waitDone := make(chan struct{})
-	var activeAtWait, startedAtWait int32
+	var activeAtWait, startedAtWait, killDoneAtWait int32
 	go func() {
 		loop.Wait()
 		activeAtWait = atomic.LoadInt32(&rec.active)
 		startedAtWait = atomic.LoadInt32(&rec.started)
+		killDoneAtWait = atomic.LoadInt32(&killDone)
 		close(waitDone)
 	}()
 	select {
@@ -256,6 +303,9 @@ func stressOne(sh *shape, consumers, producers int, salt uint64, inject int, use
 	ndone := len(rec.done)
 	rec.mu.Unlock()
 	v := verdict(rec, sel, len(listFails), listErrs, errs, consumers, activeAtWait, anyFailure, false)
+	if v == "ok" && killDoneAtWait == 1 && len(errs) == 0 {
+		v = "FAIL(killed-before-wait-returned-but-empty-error-list)"
+	}
 	// no callback may start after Wait returned (waiting here can only miss, never false-alarm)
 	time.Sleep(300 * time.Microsecond)
 	late := atomic.LoadInt32(&rec.started) != startedAtWait
@@ -302,17 +352,21 @@ func stress(tier string) {
 				if r.Chance(1, 4) {
 					inject = 1 + r.Intn(3)
 				}
+				kill := 0
+				if r.Chance(1, 4) {
+					kill = 1 + r.Intn(4)
+				}
 				useFF, useDF := r.Chance(2, 3), r.Chance(2, 3)
 				onDir, onFile := !r.Chance(1, 10), !r.Chance(1, 10)
 				salt := r.U64()
-				res := stressOne(sh, pr.c, pr.p, salt, inject, useFF, useDF, onDir, onFile)
+				res := stressOne(sh, pr.c, pr.p, salt, inject, kill, useFF, useDF, onDir, onFile)
 				runs++
 				if res.verdict != "ok" {
 					fails++
 				}
 				hung := strings.Contains(res.verdict, "wait-never-returned")
-				fmt.Fprintf(w, "stress shape=%s c=%d p=%d gmp=%d inject=%d ff=%v df=%v ondir=%v onfile=%v salt=%d sel=%d done=%d errs=%d maxcb=%d verdict=%s\n",
-					sh.name, pr.c, pr.p, g, inject, useFF, useDF, onDir, onFile, salt, res.sel, res.done, res.nerr, res.maxAct, res.verdict)
+				fmt.Fprintf(w, "stress shape=%s c=%d p=%d gmp=%d inject=%d kill=%d ff=%v df=%v ondir=%v onfile=%v salt=%d sel=%d done=%d errs=%d maxcb=%d verdict=%s\n",
+					sh.name, pr.c, pr.p, g, inject, kill, useFF, useDF, onDir, onFile, salt, res.sel, res.done, res.nerr, res.maxAct, res.verdict)
 				if hung { // every further run would cost a full watchdog period
 					fmt.Fprintf(w, "stress-summary runs=%d fails=%d shapes=%d aborted-after-hang\n", runs, fails, len(shs))
 					return
@@ -347,13 +401,14 @@ func stressOneLine(line string, reps int) {
 	p, _ := strconv.Atoi(f["p"])
 	g, _ := strconv.Atoi(f["gmp"])
 	inj, _ := strconv.Atoi(f["inject"])
+	kl, _ := strconv.Atoi(f["kill"])
 	salt, _ := strconv.ParseUint(f["salt"], 10, 64)
 	if g > 0 {
 		runtime.GOMAXPROCS(g)
 	}
 	fails := 0
 	for i := 0; i < reps; i++ {
-		res := stressOne(sh, c, p, salt, inj, f["ff"] == "true", f["df"] == "true", f["ondir"] == "true", f["onfile"] == "true")
+		res := stressOne(sh, c, p, salt, inj, kl, f["ff"] == "true", f["df"] == "true", f["ondir"] == "true", f["onfile"] == "true")
 		if res.verdict != "ok" {
 			fails++
 			fmt.Printf("stress-replay rep=%d sel=%d done=%d errs=%d verdict=%s\n", i, res.sel, res.done, res.nerr, res.verdict)
